@@ -343,10 +343,12 @@ def check(ctx):
         # body no explicit panic or compiler-inserted check can fail and no std call is made whose panic condition is not excluded (panics of
         # the caller's iterator are the caller's)
         from ..rules import reachable_panics
-        for k_ in (K_TRY,) + ((K_TRYB,) if (not cfg.startswith("F0")) else ()):
+        # judged where debug assertions do not exist (a `debug_assert!` of an internal invariant is not a way of answering the caller, and whether
+        # it can fail is the invariant's own rule); arithmetic overflow checks on positions are excluded (positions are bounded by N: assumption)
+        for k_ in ((K_TRY,) + ((K_TRYB,) if (not cfg.startswith("F0")) else ())) if cfg.endswith("N") else ():
             if ctx.db(cfg).get(k_) is not None:
                 at_ = ctx.analysis_inl(cfg, k_, split=True, force="*", tag="np")
-                pan = reachable_panics(at_)
+                pan = reachable_panics(at_, checks=False)
                 ctx.ob("C07.N", k_, not pan, "no panicking exit of its own in the fallible constructor: %s" % ((not pan) or pan), at=ctx.db(cfg).get(k_)["at"], cfg=cfg)
         # C07.W ("drops every item it pulled exactly once"): once the builder is finished (guard disarmed) the items are handed on before
         # anything can return early or unwind - else the N items already pulled are leaked on that path
